@@ -185,8 +185,10 @@ def step (s : Sys) (e : Ev) : Sys :=
     let (l', o) := lisShutdown s.lis stage
     if o.shutdownCb > 0 then
       -- activeListener.OnShutdown: OnShutdown event to every existing connection, then waitConnectionsClose(drainTime)
-      { s with lis := l', stopBegan := true, conns := s.conns.map (fun c => { c with goAway := c.goAway + 1 }),
-               draining := true, waited := 0 }
+      let conns := if onShutdownBroadcasts then s.conns.map (fun c => { c with goAway := c.goAway + 1 }) else s.conns
+      if onShutdownWaits then
+        { s with lis := l', stopBegan := true, conns := conns, draining := true, waited := 0 }
+      else { s with lis := l', stopBegan := true, conns := conns, exited := true }
     else { s with lis := l', stopBegan := true }
   | .tick d => { s with waited := s.waited + d }
   | .exit => if exitEnabled s then { s with exited := true, draining := false } else s
